@@ -1,7 +1,7 @@
 (* C03  The clock is only steered on a majority consensus of usable sources.
    Property theorems only; proofs are in Proofs/Select.v (selection) and
    Proofs/MsgLoop.v (controller level: who is a candidate, when the clock is
-   steered).
+   steered, including the wrapper's timer path time_update).
 
    Vocabulary (Model/Select.v).  Every f64 is represented by the integer key
    of f64::total_cmp, so [<=] on keys is the order the code sorts by and
@@ -81,16 +81,62 @@ Theorem C03_only_usable : forall W pre ev L,
             exists j, src_view (ops_of j (pre ++ [ev])) = Some (Some k, true).
 Proof. exact select_input_spec. Qed.
 
+(* The same with timer expiries in the schedule (they do not touch the source map). *)
+Theorem C03_only_usable_with_timer : forall W pre ev L,
+  select_input (l_ctl (tstate_after W pre)) ev = Some L ->
+  forall k, In k (map snap_core L) <->
+            exists j, src_view (ops_of j (msgs (pre ++ [Msg ev]))) = Some (Some k, true).
+Proof. exact select_input_spec_timed. Qed.
+
 (* A handled message makes clock calls (disable_ntp_algorithm, step_clock, set_frequency,
    error_estimate_update, status_update) only in the branch where select was reached and returned
-   a non-empty selection, and reports exactly that selection as used.
-   _partial: the wrapper's timer path (time_update -> set_frequency(desired 0), which ends a slew
-   whose timer was armed by the next_update of such a consensus step) is not in the model. *)
-Theorem C03_steer_only_on_consensus_partial : forall W c ev c' o,
+   a non-empty selection, and reports exactly that selection as used.  (Statement about one
+   handled message, any controller state; the loop with its timer is the next theorem.) *)
+Theorem C03_message_calls_need_consensus : forall W c ev c' o,
   handle W c ev = (c', o) -> o_clock o <> [] ->
   exists L sel, select_input c ev = Some L /\ w_select W L = sel /\ sel <> [] /\
                 o_used o = Some (map snap_id sel).
 Proof. exact clock_calls_need_selection. Qed.
+
+(* The whole loop of TimeSyncControllerWrapper::run, with its timer: for every world (selection
+   function, outcome of the float comparisons of every steering decision, vote), every schedule
+   [pre] of messages and timer expiries handled from the initial state, and every next event [te]:
+   if handling [te] makes any clock call, then
+   EITHER [te] is a source message for which select was reached and returned a non-empty
+     selection, which is what is reported as used,
+   OR [te] is the expiry of the wrapper's timer (time_update), the only call is ONE
+     set_frequency (code 5: change_desired_frequency(0.0, 0.0) ends the slew), no sources are
+     reported, the timer is not re-armed, a slew was in progress (desired_freq != 0) and is over
+     afterwards, and that slew was started under a consensus: the schedule contains an earlier
+     source message [ev], with no timer expiry between it and [te], for which select returned a
+     non-empty selection [sel] (reported as used), whose handling called set_frequency, turned
+     desired_freq from zero to non-zero and returned next_update = Some (which is what arms the
+     timer).
+   So the clock is touched only on a consensus, or to end a slew that a consensus started. *)
+Theorem C03_steer_only_on_consensus : forall W pre te s' o,
+  thandle W (tstate_after W pre) te = (s', o) -> o_clock o <> [] ->
+  (exists ev L sel, te = Msg ev /\ select_input (l_ctl (tstate_after W pre)) ev = Some L /\
+                    w_select W L = sel /\ sel <> [] /\ o_used o = Some (map snap_id sel))
+  \/
+  (te = TimeUpdate /\ o_clock o = [5] /\ o_used o = None /\ o_next o = false /\
+   c_slew (l_ctl (tstate_after W pre)) = true /\ c_slew (l_ctl s') = false /\ l_timer s' = false /\
+   exists pre1 ev post L sel c1 o1,
+     pre = pre1 ++ Msg ev :: post /\ (forall x, In x post -> x <> TimeUpdate) /\
+     select_input (l_ctl (tstate_after W pre1)) ev = Some L /\ w_select W L = sel /\ sel <> [] /\
+     handle W (l_ctl (tstate_after W pre1)) ev = (c1, o1) /\
+     o_used o1 = Some (map snap_id sel) /\ o_next o1 = true /\ In 5 (o_clock o1) /\
+     c_slew (l_ctl (tstate_after W pre1)) = false /\ c_slew c1 = true).
+Proof. exact clock_calls_consensus_or_slew_end. Qed.
+
+(* one step of the loop from ANY loop state (reachable or not): clock calls need a consensus
+   message or an expiry of an enabled timer, which makes exactly one set_frequency call and
+   leaves the timer disabled; a timer expiry with the timer disabled does nothing *)
+Theorem C03_loop_step_calls : forall W s te s' o,
+  thandle W s te = (s', o) -> o_clock o <> [] ->
+  (exists ev L sel, te = Msg ev /\ select_input (l_ctl s) ev = Some L /\ w_select W L = sel /\ sel <> [] /\
+                    o_used o = Some (map snap_id sel))
+  \/ (te = TimeUpdate /\ l_timer s = true /\ o_clock o = [5] /\ o_used o = None /\ l_timer s' = false).
+Proof. exact thandle_calls. Qed.
 
 (* non-vacuity: three agreeing voters out of four with minimum 3 are selected,
    a 2-2 tie is not, and the sweep of the first case reaches 3 *)
@@ -107,6 +153,24 @@ Proof.
   repeat (destruct Hin as [Hx | Hin]; [subst x; cbn [c_lo c_hi]; lia|]). destruct Hin.
 Qed.
 
+(* non-vacuity of the timer disjunct: one usable source; its first measurement reaches a
+   consensus whose steering decision (oracle code 2) starts a slew: disable_ntp_algorithm,
+   set_frequency, error estimate, status; next_update = Some arms the timer.  The first timer
+   expiry ends the slew with one set_frequency, a second expiry does nothing; the next consensus
+   (oracle code 1: frequency correction) calls set_frequency without arming, and the expiry after
+   it does nothing. *)
+Example C03_nonvacuous_timer :
+  let s n := mkSnap n 100 100 0 (mkCand 1 false true 10 0 20) in
+  let W := tape_world (mkCfg 1 100) [2; 1] in
+  let pre := [Msg (1, None); Msg (1, Some (SetUsable true)); Msg (1, Some (Measure (s 7)))] in
+  map (fun o => (o_clock o, o_used o, o_next o))
+      (snd (trun_from W l_init (pre ++ [TimeUpdate; TimeUpdate; Msg (1, Some (Measure (s 8))); TimeUpdate])))
+  = [([], None, false); ([], None, false); ([1; 5; 2; 30], Some [1], true); ([5], None, false);
+     ([], None, false); ([5; 2; 30], Some [1], false); ([], None, false)]
+  /\ (l_timer (tstate_after W pre), c_slew (l_ctl (tstate_after W pre))) = (true, true)
+  /\ (l_timer (tstate_after W (pre ++ [TimeUpdate])), c_slew (l_ctl (tstate_after W (pre ++ [TimeUpdate])))) = (false, false).
+Proof. vm_compute. repeat split; reflexivity. Qed.
+
 Print Assumptions C03_consensus.
 Print Assumptions C03_voters_are_the_qualifying_nonperiodic.
 Print Assumptions C03_members_qualify.
@@ -114,4 +178,7 @@ Print Assumptions C03_unqualified_irrelevant.
 Print Assumptions C03_sweep_balanced.
 Print Assumptions C03_select_never_panics.
 Print Assumptions C03_only_usable.
-Print Assumptions C03_steer_only_on_consensus_partial.
+Print Assumptions C03_only_usable_with_timer.
+Print Assumptions C03_message_calls_need_consensus.
+Print Assumptions C03_steer_only_on_consensus.
+Print Assumptions C03_loop_step_calls.
